@@ -139,13 +139,26 @@ def check_ast(ast, acc, case):
             acc.violation('pickle-id-order', case, route + ': pickle / pickle step ids are not assigned steps-first in document order, continuing the AST numbering',
                           observed=P.p_c11(res[1])[:3], expected=P.p_c11(exp)[:3])
             return
+        refs = lambda pk: [(p.get('astNodeIds'), [s.get('astNodeIds') for s in p.get('steps', [])], [t.get('astNodeId') for t in p.get('tags', [])]) for p in pk]
+        if refs(res[1]) != refs(exp):
+            g, e = refs(res[1]), refs(exp)
+            i = next((i for i, (x, y) in enumerate(zip(g, e)) if x != y), min(len(g), len(e)))
+            acc.violation('pickle-references', case, route + ': pickle %d does not point back at its scenario / example row / steps (and rows) / tags' % i,
+                          observed=g[i:i + 1], expected=e[i:i + 1])
+            return
         check_ids(before, res[1], acc, case)
     if got[1]:
         acc.nontrivial += 1
 
 
 def shapes(family, quick):
-    from . import c07
+    from . import c07, c06
+    if family == 'examples-shapes':
+        for i, m in enumerate(c06.shapes('feature-level', True)):
+            if quick and i % 3:
+                continue
+            yield m
+        return
     yield from c07.shapes(family, quick)
 
 
@@ -243,7 +256,7 @@ def run(ctx):
     G.run_families(ctx, __name__, 6, 7, [0, 6])
     from .. import astgen as A
     ns = 16
-    for fam in ('no-rules', 'rules'):
+    for fam in ('no-rules', 'rules', 'examples-shapes'):
         ctx.level('compiler shapes:' + fam, [A.job_shapes.job(__name__, fam, s, ns, ctx.quick) for s in range(ns)])
     h = ctx.pick(3, 4)
     ctx.level('histories h<=%d' % h, [job_histories.job(i, h) for i in range(len(POOL))])
